@@ -230,6 +230,33 @@ def lits_for(rnd, signed, n, f, radix, count):
             # random short literal from the alphabet, valid or not
             alpha = DIG[:radix] * 3 + ".+-" + " e_"
             out.append("".join(rnd.choice(alpha) for _ in range(rnd.randrange(1, 9))))
+    # mutation class (drawn after everything else, so the literals above do not move): one or two byte-level edits of a literal
+    # generated above (delete / duplicate / replace / insert from a hostile alphabet / swap neighbours / move the sign or the
+    # point), valid or not -- the "almost a number" strings of realistic length around every structured literal
+    hostile = DIG[:radix] + DIG[:16].upper() + "..++--  _e\t\u0660\uff11\u2212\u00a0,'xXg"
+    for _ in range(max(2, count // 6)):
+        base = list(rnd.choice(out) if out else "0")
+        for _ in range(rnd.choice((1, 1, 2))):
+            k = rnd.randrange(7)
+            pos = rnd.randrange(len(base) + 1)
+            if k == 0 and base:
+                del base[min(pos, len(base) - 1)]
+            elif k == 1 and base:
+                q = min(pos, len(base) - 1)
+                base.insert(q, base[q])
+            elif k == 2 and base:
+                base[min(pos, len(base) - 1)] = rnd.choice(hostile)
+            elif k == 3:
+                base.insert(pos, rnd.choice(hostile))
+            elif k == 4 and len(base) > 1:
+                q = min(pos, len(base) - 2)
+                base[q], base[q + 1] = base[q + 1], base[q]
+            elif k == 5:
+                base.insert(pos, rnd.choice("+-."))
+            else:
+                base = base[:pos]  # truncate
+        if len(base) < 400:
+            out.append("".join(base))
     return out
 
 
